@@ -11,24 +11,25 @@ Definition uniq_keys (ls : list link) : Prop := NoDup (map lkey ls).
 
 (** ---------- idempotence of CalculateNewFlags ---------- *)
 
-Lemma to_set_app_nodup l : forall m, NoDup (m ++ l) -> fold_left (fun m f => set_add f m) l m = m ++ l.
+Lemma to_set_ci_app_nodup l : forall m, NoDup (keys (m ++ l)) -> fold_left (fun m f => set_add_ci f m) l m = m ++ l.
 Proof.
   induction l as [|f l IH]; intros m H; simpl; [now rewrite app_nil_r|].
-  assert (Hf : mem f m = false).
-  { apply mem_false. intros Hin. apply NoDup_remove_2 in H. apply H. apply in_app_iff. now left. }
-  unfold set_add at 2. rewrite Hf. rewrite IH; rewrite <- app_assoc; simpl; auto.
+  assert (Hf : mem_ci f m = false).
+  { apply mem_ci_false. intros Hin. rewrite keys_app in H. simpl in H. apply NoDup_remove_2 in H. apply H.
+    apply in_app_iff. now left. }
+  unfold set_add_ci at 2. rewrite Hf. rewrite IH; rewrite <- app_assoc; simpl; auto.
 Qed.
 
-Lemma to_set_nodup_id l : NoDup l -> to_set l = l.
-Proof. intros H. unfold to_set. now rewrite to_set_app_nodup. Qed.
+Lemma to_set_ci_nodup_id l : NoDup (keys l) -> to_set_ci l = l.
+Proof. intros H. unfold to_set_ci. now rewrite to_set_ci_app_nodup. Qed.
 
-Lemma add_all_absorb new : forall m, (forall f, In f new -> f <> RECENT -> In f m) -> add_all new m = m.
+Lemma add_all_absorb new : forall m, (forall f, In f new -> eqf f RECENT = false -> In (fkey f) (keys m)) -> add_all new m = m.
 Proof.
   unfold add_all. induction new as [|f new IH]; intros m H; simpl; [reflexivity|].
-  destruct (str_eqb_spec f RECENT) as [->|Hn].
+  destruct (eqf f RECENT) eqn:E.
   - apply IH. intros g Hg. apply H. now right.
-  - assert (Hm : mem f m = true) by (apply mem_In, H; [now left | assumption]).
-    unfold set_add. rewrite Hm. apply IH. intros g Hg. apply H. now right.
+  - assert (Hm : mem_ci f m = true) by (apply mem_ci_In, H; [now left | assumption]).
+    unfold set_add_ci. rewrite Hm. apply IH. intros g Hg. apply H. now right.
 Qed.
 
 Lemma filter_all_true {A} (p : A -> bool) l : (forall x, In x l -> p x = true) -> filter p l = l.
@@ -37,23 +38,23 @@ Proof.
   rewrite (H x (or_introl eq_refl)). f_equal. apply IH. intros y Hy. apply H. now right.
 Qed.
 
-Lemma del_all_absorb new : forall m, (forall f, In f new -> f <> RECENT -> ~ In f m) -> del_all new m = m.
+Lemma del_all_absorb new : forall m, (forall f, In f new -> eqf f RECENT = false -> ~ In (fkey f) (keys m)) -> del_all new m = m.
 Proof.
   unfold del_all. induction new as [|f new IH]; intros m H; simpl; [reflexivity|].
-  destruct (str_eqb_spec f RECENT) as [->|Hn].
+  destruct (eqf f RECENT) eqn:E.
   - apply IH. intros g Hg. apply H. now right.
-  - assert (Hm : set_del f m = m).
-    { unfold set_del. apply filter_all_true. intros x Hx. apply negb_true_iff, str_eqb_neq.
-      intros ->. apply (H x); [now left | assumption | assumption]. }
+  - assert (Hm : set_del_ci f m = m).
+    { unfold set_del_ci. apply filter_all_true. intros x Hx. apply negb_true_iff, eqf_false.
+      intros Hk. apply (H f); [now left | assumption |]. rewrite <- Hk. now apply in_map. }
     rewrite Hm. apply IH. intros g Hg. apply H. now right.
 Qed.
 
-Lemma calc_nodup cur new s : NoDup (calculate_new_flags cur new s).
+Lemma calc_nodup cur new s : NoDup (keys (calculate_new_flags cur new s)).
 Proof.
   unfold calculate_new_flags.
   destruct (str_eqb s IT_FLAGS); [apply add_all_NoDup; constructor|].
-  destruct (str_eqb s IT_ADD); [apply add_all_NoDup, to_set_NoDup|].
-  destruct (str_eqb s IT_DEL); [apply del_all_NoDup, to_set_NoDup | apply to_set_NoDup].
+  destruct (str_eqb s IT_ADD); [apply add_all_NoDup, to_set_ci_NoDup|].
+  destruct (str_eqb s IT_DEL); [apply del_all_NoDup, to_set_ci_NoDup | apply to_set_ci_NoDup].
 Qed.
 
 Lemma calc_idem cur new s :
@@ -63,12 +64,13 @@ Proof.
   unfold calculate_new_flags.
   destruct (str_eqb s IT_FLAGS); [reflexivity|].
   destruct (str_eqb s IT_ADD).
-  - intros Hnd. rewrite (to_set_nodup_id _ Hnd). apply add_all_absorb.
-    intros f Hf Hr. apply add_all_In. right. split; assumption.
+  - intros Hnd. rewrite (to_set_ci_nodup_id _ Hnd). apply add_all_absorb.
+    intros f Hf Hr. apply add_all_keys. right. split; [now apply in_map | now apply eqf_false].
   - destruct (str_eqb s IT_DEL).
-    + intros Hnd. rewrite (to_set_nodup_id _ Hnd). apply del_all_absorb.
-      intros f Hf Hr Hin. apply del_all_In in Hin. destruct Hin as [_ Hx]. apply Hx. split; assumption.
-    + intros Hnd. now rewrite (to_set_nodup_id _ Hnd).
+    + intros Hnd. rewrite (to_set_ci_nodup_id _ Hnd). apply del_all_absorb.
+      intros f Hf Hr Hin. apply del_all_keys in Hin. destruct Hin as [_ Hx]. apply Hx.
+      split; [now apply in_map | now apply eqf_false].
+    + intros Hnd. now rewrite (to_set_ci_nodup_id _ Hnd).
 Qed.
 
 Lemma will_move_after e mb item new l :
@@ -154,9 +156,9 @@ Qed.
 
 (** a row that is not re-filed is updated in place - also when Junk is added
     inside Spam / NonJunk inside INBOX (MoveMessageToMailbox reports "not moved") *)
-Lemma no_move_row e ls mb l0 item new :
+Lemma no_move_row e s mb l0 item new :
   will_move e mb item new l0 = false ->
-  store_row e ls mb l0 item new = upd_uid mb (lk_uid l0) ls (calculate_new_flags (lk_flags l0) new item).
+  store_row e s mb l0 item new = with_links s (upd_uid mb (lk_uid l0) (links s) (calculate_new_flags (lk_flags l0) new item)).
 Proof.
   unfold will_move, store_row, move. cbv zeta.
   destruct (junk_added _ _).
@@ -165,13 +167,13 @@ Proof.
     intros H. apply negb_false_iff in H. now rewrite H.
 Qed.
 
-Lemma store_uid_one_spec e ls mb item new u :
-  uniq_keys ls ->
-  (forall l0, find_key ls mb u = Some l0 -> will_move e mb item new l0 = false) ->
-  store_uid_one e mb item new ls u = spec_update ls mb [u] item new.
+Lemma store_uid_one_spec e s mb item new u :
+  uniq_keys (links s) ->
+  (forall l0, find_key (links s) mb u = Some l0 -> will_move e mb item new l0 = false) ->
+  store_uid_one e mb item new s u = with_links s (spec_update (links s) mb [u] item new).
 Proof.
-  intros Hu Ht. unfold store_uid_one. destruct (find_key ls mb u) as [l0|] eqn:Ef.
-  - rewrite (no_move_row _ _ _ _ _ _ (Ht l0 eq_refl)).
+  intros Hu Ht. unfold store_uid_one. set (ls := links s) in *. destruct (find_key ls mb u) as [l0|] eqn:Ef.
+  - rewrite (no_move_row _ _ _ _ _ _ (Ht l0 eq_refl)). f_equal. fold ls.
     assert (Hk0 : lk_uid l0 = u).
     { apply find_some in Ef. destruct Ef as [_ Hk]. apply has_key_lkey in Hk. now injection Hk. }
     rewrite Hk0. unfold upd_uid. rewrite spec_update_upd. apply map_ext_in. intros l Hl.
@@ -181,25 +183,27 @@ Proof.
     assert (l = l0).
     { apply (uniq_inj ls Hu); auto. apply has_key_lkey in Hk. rewrite Hk. now apply has_key_lkey. }
     now subst.
-  - rewrite spec_update_upd. rewrite <- (map_id ls) at 1. apply map_ext_in. intros l Hl.
-    unfold upd, in_mbox, memZ. simpl. rewrite orb_false_r.
-    pose proof (find_none _ _ Ef l Hl) as Hn. unfold has_key in Hn. now rewrite Hn.
+  - assert (K : spec_update ls mb [u] item new = ls).
+    { rewrite spec_update_upd. rewrite <- (map_id ls) at 2. apply map_ext_in. intros l Hl.
+      unfold upd, in_mbox, memZ. simpl. rewrite orb_false_r.
+      pose proof (find_none _ _ Ef l Hl) as Hn. unfold has_key in Hn. now rewrite Hn. }
+    rewrite K. subst ls. now destruct s.
 Qed.
 
-Lemma store_uid_fold e mb item new : forall uids ls,
-  uniq_keys ls ->
-  (forall u l0, In u uids -> find_key ls mb u = Some l0 -> will_move e mb item new l0 = false) ->
-  fold_left (store_uid_one e mb item new) uids ls = spec_update ls mb uids item new.
+Lemma store_uid_fold e mb item new : forall uids s,
+  uniq_keys (links s) ->
+  (forall u l0, In u uids -> find_key (links s) mb u = Some l0 -> will_move e mb item new l0 = false) ->
+  fold_left (store_uid_one e mb item new) uids s = with_links s (spec_update (links s) mb uids item new).
 Proof.
-  induction uids as [|u uids IH]; intros ls Hu Ht; simpl.
-  - now rewrite spec_update_nil.
+  induction uids as [|u uids IH]; intros s Hu Ht; simpl.
+  - rewrite spec_update_nil. now destruct s.
   - rewrite store_uid_one_spec; auto.
     2:{ intros l0 Hf. apply (Ht u l0); auto. now left. }
     rewrite IH.
-    + apply (spec_update_compose ls mb [u] uids).
-    + unfold uniq_keys. rewrite spec_update_upd, map_lkey_upd. exact Hu.
-    + intros u' l0' Hin Hf. rewrite spec_update_upd, find_key_upd in Hf.
-      destruct (find_key ls mb u') as [l0|] eqn:Ef; [|discriminate]. simpl in Hf. injection Hf as <-.
+    + simpl. unfold with_links. simpl. f_equal. apply (spec_update_compose (links s) mb [u] uids).
+    + simpl. unfold uniq_keys. rewrite spec_update_upd, map_lkey_upd. exact Hu.
+    + simpl. intros u' l0' Hin Hf. rewrite spec_update_upd, find_key_upd in Hf.
+      destruct (find_key (links s) mb u') as [l0|] eqn:Ef; [|discriminate]. simpl in Hf. injection Hf as <-.
       unfold upd. destruct (in_mbox mb l0 && memZ (lk_uid l0) [u]).
       * apply will_move_after.
       * apply (Ht u' l0); auto. now right.
@@ -219,10 +223,10 @@ Proof.
   intros Hu Hf. unfold rows_of_uids. apply in_flat_map. exists u. split; [assumption|]. rewrite Hf. now left.
 Qed.
 
-Theorem store_uid_exact e ls mb q item new :
-  uniq_keys ls ->
-  junk_class e mb item new (rows_of_uids ls mb (expand_uid ls mb q)) = None ->
-  store_uid e ls mb q item new = spec_update ls mb (expand_uid ls mb q) item new.
+Theorem store_uid_exact e s mb q item new :
+  uniq_keys (links s) ->
+  junk_class e mb item new (rows_of_uids (links s) mb (expand_uid (links s) mb q)) = None ->
+  store_uid e s mb q item new = with_links s (spec_update (links s) mb (expand_uid (links s) mb q) item new).
 Proof.
   intros Hu Hc. unfold store_uid. apply store_uid_fold; [assumption|].
   intros u l0 Hin Hf. apply (junk_class_none _ _ _ _ _ Hc). eapply rows_of_uids_In; eauto.
@@ -230,10 +234,10 @@ Qed.
 
 (** plain STORE: the same loop over the UIDs the sequence set denotes when the
     command starts *)
-Theorem store_seq_exact e ls mb q item new :
-  uniq_keys ls ->
-  junk_class e mb item new (rows_of_uids ls mb (seq_targets ls mb q)) = None ->
-  store_seq e ls mb q item new = spec_update ls mb (seq_targets ls mb q) item new.
+Theorem store_seq_exact e s mb q item new :
+  uniq_keys (links s) ->
+  junk_class e mb item new (rows_of_uids (links s) mb (seq_targets (links s) mb q)) = None ->
+  store_seq e s mb q item new = with_links s (spec_update (links s) mb (seq_targets (links s) mb q) item new).
 Proof.
   intros Hu Hc. unfold store_seq. apply store_uid_fold; [assumption|].
   intros u l0 Hin Hf. apply (junk_class_none _ _ _ _ _ Hc). eapply rows_of_uids_In; eauto.
